@@ -68,6 +68,11 @@ type Quirks struct {
 	DefaultFg  Color         // what "default colours" (SGR 39/49, op) mean; aixterm/pcansi op sets an explicit pair
 	DefaultBg  Color
 	NoAutoWrap bool // terminal has no automatic margins
+	// EagerWrap: automatic margins without the deferred wrap of the VT100 (am without xenl):
+	// the cursor moves to the next line as soon as the last column has been written, which on
+	// the last line scrolls the screen. This is the terminal a library has in mind when it
+	// paints the bottom-right cell through its neighbour and an insert-character.
+	EagerWrap bool
 }
 
 type Term struct {
@@ -430,6 +435,11 @@ func (t *Term) printGlyph(r rune) {
 		t.CX = t.W - 1
 		if t.Modes[7] {
 			t.wrapNext = true
+			if t.Q.EagerWrap {
+				t.CX = 0
+				t.lineFeed()
+				t.wrapNext = false
+			}
 		}
 	}
 }
